@@ -1,217 +1,6 @@
 /-
-  Proofs: framing helper, fixed-layout parsers, accessors, dispatch.
+  Proofs: framing helper, fixed-layout parsers, accessors, dispatch (split over three files).
 -/
-import Rtcp.Spec.All
-
-namespace Rtcp.Proofs
-open Rtcp Rtcp.Impl Rtcp.Spec
-
-/-! ## `check_packet::<P>` for every declared type and minimum size ≥ 4 (C08, C19) -/
-
-theorem checkPacket_ok_iff (min : Nat) (pt : UInt8) (bs : Bytes) (h4 : 4 ≤ min) :
-    checkPacket min pt bs = .ok () ↔ WellFramed min pt bs := by
-  sorry
-
-theorem checkPacket_no_panic (min : Nat) (pt : UInt8) (bs : Bytes) (h4 : 4 ≤ min) :
-    checkPacket min pt bs ≠ .panic := by
-  sorry
-
-/-- C18: every error of the framing check is accurate -/
-theorem checkPacket_err_truthful (min : Nat) (pt : UInt8) (bs : Bytes) (h4 : 4 ≤ min) (e : ParseError)
-    (h : checkPacket min pt bs = .err e) : ErrorTruthful bs pt e := by
-  sorry
-
-/-- C18: shorter than the minimum ⇒ truncated with exactly that minimum and the real length -/
-theorem checkPacket_short (min : Nat) (pt : UInt8) (bs : Bytes) (h : bs.length < min) :
-    checkPacket min pt bs = .err (.truncated min bs.length) := by
-  sorry
-
-/-- C18: version 2, right type, but a length field that disagrees ⇒ truncated / too large with
-    exactly the header length and the real length -/
-theorem checkPacket_length_mismatch (min : Nat) (pt : UInt8) (bs : Bytes) (h4 : 4 ≤ min)
-    (hm : min ≤ bs.length) (hv : version bs = 2) (ht : ptype bs = pt) (hl : lengthField bs ≠ bs.length) :
-    checkPacket min pt bs =
-      .err (if bs.length < lengthField bs then .truncated (lengthField bs) bs.length
-            else .tooLarge (lengthField bs) bs.length) := by
-  sorry
-
-/-! ## header accessors on any well-framed packet (C08) -/
-
-theorem header_accessors {ε : Type} (min : Nat) (pt : UInt8) (bs : Bytes) (h4 : 4 ≤ min)
-    (h : WellFramed min pt bs) :
-    (hVersion bs : R ε UInt8) = .ok 2 ∧ (hType bs : R ε UInt8) = .ok pt ∧
-    (hCount bs : R ε UInt8) = .ok (count bs).toUInt8 ∧ (hLength bs : R ε Nat) = .ok bs.length ∧
-    (parsePadding bs : R ε (Option UInt8)) = .ok (paddingOf bs) ∧
-    (∀ p, paddingOf bs = some p → p ≠ 0) := by
-  sorry
-
-/-! ## typed parsers: accepted ⇔ framed and body large enough (C08); the view is the input (C09) -/
-
-theorem sr_parse_ok_iff (bs v : Bytes) :
-    Sr.parse bs = .ok v ↔ v = bs ∧ WellFramed 28 200 bs ∧ 28 + 24 * count bs ≤ bs.length := by
-  sorry
-
-theorem rr_parse_ok_iff (bs v : Bytes) :
-    Rr.parse bs = .ok v ↔ v = bs ∧ WellFramed 8 201 bs ∧ 8 + 24 * count bs ≤ bs.length := by
-  sorry
-
-theorem bye_parse_ok_iff (bs v : Bytes) :
-    Bye.parse bs = .ok v ↔ v = bs ∧ WellFramed 4 203 bs ∧ 4 + 4 * count bs ≤ bs.length ∧
-      (4 + 4 * count bs < bs.length → 4 + 4 * count bs + 1 + u8At bs (4 + 4 * count bs) ≤ bs.length) := by
-  sorry
-
-theorem app_parse_ok_iff (bs v : Bytes) :
-    App.parse bs = .ok v ↔ v = bs ∧ WellFramed 12 204 bs ∧ 12 + padLen bs ≤ bs.length := by
-  sorry
-
-theorem fb_parse_ok_iff (k : FbKind) (bs v : Bytes) :
-    Fb.parse k bs = .ok v ↔ v = bs ∧ WellFramed 12 k.pt bs ∧ 12 + padLen bs ≤ bs.length := by
-  sorry
-
-theorem unknown_parse_ok_iff (bs v : Bytes) :
-    Unknown.parse bs = .ok v ↔ v = bs ∧ UnknownFramed bs := by
-  sorry
-
-theorem custom_parse_ok_iff (pt : UInt8) (min : Nat) (h4 : 4 ≤ min) (bs v : Bytes) :
-    Custom.parse pt min bs = .ok v ↔ v = bs ∧ WellFramed min pt bs ∧ min + padLen bs ≤ bs.length := by
-  sorry
-
-theorem rb_parse_ok_iff (bs v : Bytes) : ReportBlock.parse bs = .ok v ↔ v = bs ∧ bs.length = 24 := by
-  sorry
-
-/-! ## no parser panics, whatever the bytes (C01) -/
-
-theorem parsers_no_panic (bs : Bytes) :
-    Sr.parse bs ≠ .panic ∧ Rr.parse bs ≠ .panic ∧ Bye.parse bs ≠ .panic ∧ App.parse bs ≠ .panic ∧
-    Fb.parse .transport bs ≠ .panic ∧ Fb.parse .payload bs ≠ .panic ∧ Unknown.parse bs ≠ .panic ∧
-    ReportBlock.parse bs ≠ .panic := by
-  sorry
-
-/-! ## errors are truthful (C18) -/
-
-theorem sr_err_truthful (bs : Bytes) (e : ParseError) (h : Sr.parse bs = .err e) : ErrorTruthful bs 200 e := by
-  sorry
-theorem rr_err_truthful (bs : Bytes) (e : ParseError) (h : Rr.parse bs = .err e) : ErrorTruthful bs 201 e := by
-  sorry
-theorem bye_err_truthful (bs : Bytes) (e : ParseError) (h : Bye.parse bs = .err e) : ErrorTruthful bs 203 e := by
-  sorry
-theorem app_err_truthful (bs : Bytes) (e : ParseError) (h : App.parse bs = .err e) : ErrorTruthful bs 204 e := by
-  sorry
-theorem fb_err_truthful (k : FbKind) (bs : Bytes) (e : ParseError) (h : Fb.parse k bs = .err e) :
-    ErrorTruthful bs k.pt e := by
-  sorry
-theorem unknown_err_truthful (bs : Bytes) (e : ParseError) (h : Unknown.parse bs = .err e) :
-    ErrorTruthful bs 0 e ∧ (∀ a r, e ≠ .packetTypeMismatch a r) := by
-  sorry
-theorem rb_err_truthful (bs : Bytes) (e : ParseError) (h : ReportBlock.parse bs = .err e) :
-    e = (if bs.length < 24 then .truncated 24 bs.length else .tooLarge 24 bs.length) ∧ bs.length ≠ 24 := by
-  sorry
-
-/-! ## accessors: exactly the bytes on the wire, never a panic on an accepted view (C09, C01) -/
-
-theorem sr_accessors {ε : Type} (bs : Bytes) (h : Sr.parse bs = .ok bs) :
-    (Sr.ssrc bs : R ε UInt32) = .ok (u32At bs 4).toUInt32 ∧
-    (Sr.ntp bs : R ε UInt64) = .ok (u64At bs 8).toUInt64 ∧
-    (Sr.rtp bs : R ε UInt32) = .ok (u32At bs 16).toUInt32 ∧
-    (Sr.packetCount bs : R ε UInt32) = .ok (u32At bs 20).toUInt32 ∧
-    (Sr.octetCount bs : R ε UInt32) = .ok (u32At bs 24).toUInt32 ∧
-    (Sr.nReports bs : R ε UInt8) = .ok (count bs).toUInt8 ∧
-    (Sr.padding bs : R ε (Option UInt8)) = .ok (paddingOf bs) ∧
-    (Sr.reportBlocks bs : R ε (List Bytes)) =
-      .ok ((List.range (count bs)).map (fun i => range bs (28 + 24 * i) (28 + 24 * i + 24))) := by
-  sorry
-
-theorem rr_accessors {ε : Type} (bs : Bytes) (h : Rr.parse bs = .ok bs) :
-    (Rr.ssrc bs : R ε UInt32) = .ok (u32At bs 4).toUInt32 ∧
-    (Rr.nReports bs : R ε UInt8) = .ok (count bs).toUInt8 ∧
-    (Rr.padding bs : R ε (Option UInt8)) = .ok (paddingOf bs) ∧
-    (Rr.reportBlocks bs : R ε (List Bytes)) =
-      .ok ((List.range (count bs)).map (fun i => range bs (8 + 24 * i) (8 + 24 * i + 24))) := by
-  sorry
-
-theorem rb_accessors {ε : Type} (bs : Bytes) (h : bs.length = 24) :
-    (ReportBlock.ssrc bs : R ε UInt32) = .ok (u32At bs 0).toUInt32 ∧
-    (ReportBlock.fractionLost bs : R ε UInt8) = .ok (u8At bs 4).toUInt8 ∧
-    (ReportBlock.cumulativeLost bs : R ε UInt32) = .ok (u32At bs 4 % 16777216).toUInt32 ∧
-    (ReportBlock.extendedSequenceNumber bs : R ε UInt32) = .ok (u32At bs 8).toUInt32 ∧
-    (ReportBlock.interarrivalJitter bs : R ε UInt32) = .ok (u32At bs 12).toUInt32 ∧
-    (ReportBlock.lastSenderReportTimestamp bs : R ε UInt32) = .ok (u32At bs 16).toUInt32 ∧
-    (ReportBlock.delaySinceLastSenderReportTimestamp bs : R ε UInt32) = .ok (u32At bs 20).toUInt32 := by
-  sorry
-
-theorem app_accessors {ε : Type} (bs : Bytes) (h : App.parse bs = .ok bs) :
-    (App.ssrc bs : R ε UInt32) = .ok (u32At bs 4).toUInt32 ∧
-    (App.name bs : R ε Bytes) = .ok (range bs 8 12) ∧
-    (App.padding bs : R ε (Option UInt8)) = .ok (paddingOf bs) ∧
-    (App.data bs : R ε Slice) = .ok ⟨12, range bs 12 (bs.length - padLen bs)⟩ ∧
-    12 ≤ bs.length - padLen bs := by
-  sorry
-
-theorem bye_accessors {ε : Type} (bs : Bytes) (h : Bye.parse bs = .ok bs) :
-    (Bye.ssrcs bs : R ε (List UInt32)) = .ok ((List.range (count bs)).map (fun i => (u32At bs (4 + 4 * i)).toUInt32)) ∧
-    (Bye.padding bs : R ε (Option UInt8)) = .ok (paddingOf bs) ∧
-    (let off := 4 + 4 * count bs
-     (Bye.reason bs : R ε (Option Slice)) =
-       .ok (if bs.length ≤ off + 1 + padLen bs then none
-            else some ⟨off + 1, range bs (off + 1) (off + 1 + u8At bs off)⟩)) ∧
-    (4 + 4 * count bs < bs.length → 4 + 4 * count bs + 1 + u8At bs (4 + 4 * count bs) ≤ bs.length) := by
-  sorry
-
-theorem fb_accessors {ε : Type} (k : FbKind) (bs : Bytes) (h : Fb.parse k bs = .ok bs) :
-    (Fb.senderSsrc bs : R ε UInt32) = .ok (u32At bs 4).toUInt32 ∧
-    (Fb.mediaSsrc bs : R ε UInt32) = .ok (u32At bs 8).toUInt32 ∧
-    (Fb.padding bs : R ε (Option UInt8)) = .ok (paddingOf bs) := by
-  sorry
-
-theorem unknown_accessors {ε : Type} (bs : Bytes) :
-    (Unknown.data bs : R ε Slice) = .ok ⟨0, bs⟩ := by
-  sorry
-
-theorem slices_within (bs : Bytes) :
-    (∀ s, (App.data bs : R Unit Slice) = .ok s → SubSlice s bs) ∧
-    (∀ s, (Bye.reason bs : R Unit (Option Slice)) = .ok (some s) → SubSlice s bs) ∧
-    (∀ s, (Unknown.data bs : R Unit Slice) = .ok s → SubSlice s bs) := by
-  sorry
-
-/-! ## generic dispatch and the conversion matrix (C12) -/
-
-/-- the generic parser's outcome (value or error) is the typed parser's outcome for the variant
-    named by the type octet, and `Unknown`'s for every other type -/
-theorem packet_parse_eq (bs : Bytes) (h : 4 ≤ bs.length) :
-    Packet.parse bs = (match kindOfType (ptype bs) with
-                       | some k => k.parse bs
-                       | none => Packet.unknown <$> Unknown.parse bs) := by
-  sorry
-
-theorem packet_parse_short (bs : Bytes) (h : bs.length < 4) :
-    Packet.parse bs = .err (.truncated 4 bs.length) := by
-  sorry
-
-/-- an unknown packet exposes the input unchanged -/
-theorem packet_unknown_data (bs u : Bytes) (h : Packet.parse bs = .ok (.unknown u)) : u = bs := by
-  sorry
-
-/-- every parsed packet holds exactly the input bytes -/
-theorem packet_data (bs : Bytes) (p : Packet) (h : Packet.parse bs = .ok p) : p.data = bs := by
-  sorry
-
-/-- conversion to the variant's own type returns the already-parsed value -/
-theorem tryAs_same (p : Packet) (k : Kind) (h : p.kind? = some k) : p.tryAs k = .ok p := by
-  sorry
-
-/-- conversion to a different known type: a mismatch error naming both types -/
-theorem tryAs_mismatch (bs : Bytes) (p : Packet) (k k' : Kind) (hp : Packet.parse bs = .ok p)
-    (h : p.kind? = some k') (hne : k' ≠ k) :
-    p.tryAs k = .err (.packetTypeMismatch k'.pt k.pt) := by
-  sorry
-
-/-- conversion of an unknown packet: exactly what the typed parser returns on the same bytes -/
-theorem tryAs_unknown (u : Bytes) (k : Kind) : (Packet.unknown u).tryAs k = k.parse u := by
-  sorry
-
-/-- the variant chosen carries the type octet's kind -/
-theorem packet_kind (bs : Bytes) (p : Packet) (h : Packet.parse bs = .ok p) :
-    p.kind? = kindOfType (ptype bs) := by
-  sorry
-
-end Rtcp.Proofs
+import Rtcp.Proofs.ParsersFraming
+import Rtcp.Proofs.ParsersAccessors
+import Rtcp.Proofs.ParsersDispatch
